@@ -323,3 +323,445 @@ def regen(ctx):
                                            'float_regs': [y.name for _, y in tabs['float_regs']],
                                            'fp_slot_f32': tabs['fp_slot']('f32')}
     return impl, tabs
+
+
+# ---------------------------------------------------------------- independent SysV oracle (search)
+INT_SEQ = ['rdi', 'rsi', 'rdx', 'rcx', 'r8', 'r9']       # psABI 3.2.3
+HW_NUM = {'rax': 0, 'rcx': 1, 'rdx': 2, 'rbx': 3, 'rsp': 4, 'rbp': 5, 'rsi': 6, 'rdi': 7,
+          'r8': 8, 'r9': 9, 'r10': 10, 'r11': 11, 'r12': 12, 'r13': 13, 'r14': 14, 'r15': 15}
+ABI_CALLEE_SAVED = {3, 5, 12, 13, 14, 15}
+
+
+def sysv_places(sig):
+    """psABI placement of scalar arguments: ('g', hwnum) | ('x', n) | ('m', offset from rsp at the call)"""
+    ni = nf = stk = 0
+    out = []
+    for t in sig:
+        if t in ('f32', 'f64'):
+            if nf < 8:
+                out.append(('x', nf))
+                nf += 1
+            else:
+                out.append(('m', stk))
+                stk += 8
+        else:
+            if ni < 6:
+                out.append(('g', HW_NUM[INT_SEQ[ni]]))
+                ni += 1
+            else:
+                out.append(('m', stk))
+                stk += 8
+    return out
+
+
+def phys_of(regt):
+    name, num, tag = regt
+    if tag in (132, 164):
+        return ('x', num)
+    if tag == 8 and 4 <= num < 8:
+        return ('g', num - 4)
+    return ('g', num)
+
+
+def impl_places(impl, sig):
+    out = []
+    for l in impl.arg_locations(sig):
+        out.append(('m', l[1] - 16) if l[0] == 'stack' else phys_of(l[1]))
+    return out
+
+
+def simulate(ops, rsp, regs=None, mem=None):
+    """the abstract stack machine of Spec/SysVSpec.v re-implemented for the search (8-byte pushes)"""
+    regs = dict(regs or {})
+    mem = dict(mem or {})
+    at_call = None
+    for o in ops:
+        k = o[0]
+        if k in ('label', 'db', 'rvfrom', 'argfromreg', 'argfromstack'):
+            continue
+        if k == 'push':
+            rsp -= 8
+            mem[rsp] = regs.get(phys_of(o[1]), ('init', phys_of(o[1])))
+        elif k == 'pusharg':
+            rsp -= 8
+            mem[rsp] = ('arg', o[1])
+        elif k == 'pop':
+            if rsp not in mem:
+                return None
+            regs[phys_of(o[1])] = mem[rsp]
+            rsp += 8
+        elif k == 'sub':
+            rsp -= o[1]
+        elif k == 'add':
+            rsp += o[1]
+        elif k == 'movfpsp':
+            regs[('g', 5)] = ('addr', rsp)
+        elif k == 'argtoreg':
+            regs[phys_of(o[1])] = ('arg', o[2])
+        elif k == 'call':
+            at_call = (rsp, dict(regs), dict(mem))
+        elif k == 'body':
+            b = regs.get(('g', 5))
+            if not b or b[0] != 'addr':
+                return None
+            for a in list(mem):
+                if (b[1] - o[1] - 8 < a < b[1]) or a < rsp:
+                    mem[a] = ('junk',)
+            for p in o[2]:
+                regs[p] = ('junk',)
+        elif k == 'ret':
+            if mem.get(rsp) != ('retaddr',):
+                return None
+            rsp += 8
+        else:
+            return None
+    return rsp, regs, mem, at_call
+
+
+def check_signature(impl, ctx, sig):
+    """implementation vs psABI oracle for one signature; reports violations; returns evaluations"""
+    n = 1
+    want = sysv_places(sig)
+    got = impl_places(impl, sig)
+    if got != want:
+        bad = [i for i, (a, b) in enumerate(zip(got, want)) if a != b]
+        ctx.violation({'fn': 'determine_arg_locations', 'args': list(sig), 'expected': [list(x) for x in want],
+                       'actual': [list(x) for x in got], 'first_wrong_argument': bad[0] if bad else None,
+                       'how_to_replay': 'PYTHONPATH=$REPO python -c "from ppci import ir; from ppci.api import get_arch; '
+                                        'print(get_arch(\'x86_64\').determine_arg_locations([%s]))"' % ', '.join('ir.' + t for t in sig)})
+    call = outcome(impl.gen_call, list(sig), None)
+    enter = outcome(impl.gen_function_enter, list(sig))
+    n += 2
+    for nm, o in (('gen_call', call), ('gen_function_enter', enter)):
+        if not isinstance(o, OkV):
+            cls = 'fp' if any(t in ('f32', 'f64') for t, w in zip(sig, want) if w[0] == 'm') else 'small-int'
+            ctx.violation({'fn': nm, 'args': list(sig), 'key': nm + ':NotImplemented:' + cls,
+                           'what': 'NotImplementedError for a stack-passed %s argument' % cls,
+                           'expected': 'an instruction sequence', 'actual': 'exception',
+                           'how_to_replay': 'call X86_64Arch.%s with virtual registers of the value classes of %r' % (nm, list(sig))})
+        elif any(x[0] == 'unknown' for x in o.v):
+            ctx.violation({'fn': nm, 'args': list(sig), 'what': 'instruction not understood by the abstraction',
+                           'actual': [x for x in o.v if x[0] == 'unknown'][:3]})
+    if isinstance(call, OkV):
+        rsp0 = 1 << 20
+        r = simulate(call.v, rsp0)
+        if r is None or r[3] is None:
+            ctx.violation({'fn': 'gen_call', 'args': list(sig), 'what': 'call sequence gets stuck on the stack machine'})
+        else:
+            rsp_end, _, _, (rsp_call, regs_call, mem_call) = r
+            if rsp_call % 16 != 0:
+                ctx.violation({'fn': 'gen_call', 'args': list(sig), 'what': 'rsp not 16-byte aligned at the call',
+                               'expected': 0, 'actual': rsp_call % 16, 'key': 'gen_call:alignment'})
+            if rsp_end != rsp0:
+                ctx.violation({'fn': 'gen_call', 'args': list(sig), 'what': 'rsp not restored after the call',
+                               'expected': 0, 'actual': rsp_end - rsp0, 'key': 'gen_call:balance'})
+            for i, w in enumerate(want):       # every argument is where the psABI says
+                have = mem_call.get(rsp_call + w[1]) if w[0] == 'm' else regs_call.get(w)
+                if have != ('arg', i):
+                    ctx.violation({'fn': 'gen_call', 'args': list(sig), 'key': 'gen_call:placement',
+                                   'what': 'argument %d is not at its psABI place at the call' % i,
+                                   'expected': list(w), 'actual': repr(have)})
+                    break
+    if isinstance(enter, OkV):
+        seen = {}
+        for o in enter.v:
+            if o[0] == 'argfromstack':
+                seen[o[1]] = ('m', o[2] - 16)
+            elif o[0] == 'argfromreg':
+                seen[o[1]] = phys_of(o[2])
+        for i, w in enumerate(want):
+            if seen.get(i) != w:
+                ctx.violation({'fn': 'gen_function_enter', 'args': list(sig), 'key': 'gen_function_enter:placement',
+                               'what': 'parameter %d is not read from its psABI place' % i,
+                               'expected': list(w), 'actual': repr(seen.get(i))})
+                break
+    return n
+
+
+def check_frame(impl, ctx, stacksize, used):
+    pro = impl.prologue(stacksize, used)
+    epi = impl.epilogue(stacksize, used)
+    rsp0 = (1 << 20) + 8
+    clob = {phys_of(impl.regt(impl.reg_by_name(u))) for u in used}
+    ops = pro + [('body', stacksize, sorted(clob))] + epi
+    r = simulate(ops, rsp0, mem={rsp0: ('retaddr',)})
+    rec = {'fn': 'gen_prologue/gen_epilogue', 'args': [stacksize, sorted(used)]}
+    if any(x[0] == 'unknown' for x in ops):
+        ctx.violation(dict(rec, what='instruction not understood by the abstraction'))
+        return 1
+    if r is None:
+        ctx.violation(dict(rec, what='prologue/body/epilogue gets stuck (pop of an unwritten slot, clobbered return address)',
+                           key='frame:stuck'))
+        return 1
+    rsp_end, regs, mem, _ = r
+    if rsp_end != rsp0 + 8:
+        ctx.violation(dict(rec, what='rsp after ret differs from entry rsp + 8', expected=0, actual=rsp_end - rsp0 - 8,
+                           key='frame:rsp'))
+    for p in [('g', n) for n in sorted(ABI_CALLEE_SAVED)]:
+        v = regs.get(p, ('init', p))
+        if v != ('init', p):
+            ctx.violation(dict(rec, what='ABI callee-saved register %r not restored' % (p,), actual=repr(v), key='frame:callee-saved'))
+            break
+    # alignment after the prologue
+    rp = simulate(pro, rsp0, mem={rsp0: ('retaddr',)})
+    if rp and rp[0] % 16 != 0:
+        ctx.violation(dict(rec, what='rsp after the prologue is not 16-byte aligned', actual=rp[0] % 16, key='frame:alignment'))
+    return 1
+
+
+def check_tables(impl, ctx):
+    a = impl.arch
+    cs = list(a._callee_save)
+    cl = list(a._caller_save)
+    n = 0
+    for rc in a.info.register_classes:
+        for r in rc.registers or []:
+            n += 1
+            p = phys_of(impl.regt(r))
+            preserved = p[0] == 'g' and p[1] in ABI_CALLEE_SAVED
+            if p in (('g', 4), ('g', 5)):
+                ctx.violation({'fn': 'register_classes', 'args': [r.name], 'what': 'rsp/rbp is allocatable'})
+            tab = cs if preserved else cl
+            if not any(r in a.info.alias.get(c, ()) for c in tab):
+                ctx.violation({'fn': 'callee_save' if preserved else 'caller_save', 'args': [r.name],
+                               'what': 'allocatable register %s (%s by the ABI) is not covered by the %s list'
+                                       % (r.name, 'preserved' if preserved else 'clobbered', 'callee_save' if preserved else 'caller_save'),
+                               'how_to_replay': 'inspect ppci/arch/x86_64/registers.py'})
+    for c in cl:
+        p = phys_of(impl.regt(c))
+        if p[0] == 'g' and p[1] in ABI_CALLEE_SAVED:
+            pass    # over-approximating the clobbers is harmless
+    return n
+
+
+# ---------------------------------------------------------------- generators
+def signatures(ctx, thorough):
+    rng = ctx.rng
+    sigs = [()]
+    sigs += [(t,) for t in TYPES]
+    sigs += list(itertools.product(TYPES, repeat=2))
+    for t in TYPES:
+        for n in (5, 6, 7, 8, 9, 10):
+            sigs.append((t,) * n)
+    for a in TYPES:                      # boundary: fill the registers with one type, then one/two of another
+        for b in TYPES:
+            base = 8 if a in ('f32', 'f64') else 6
+            if len(sigs) < 10 ** 6:
+                sigs.append((a,) * base + (b,))
+                sigs.append((a,) * (base - 1) + (b, a))
+                if base + 2 <= 10:
+                    sigs.append((a,) * base + (b, a))
+    for a, b in itertools.product(['i64', 'i32', 'i8', 'ptr'], ['f64', 'f32']):
+        sigs.append((a, b) * 5)
+        sigs.append((b,) * 4 + (a,) * 6)
+    n_rand = 6000 if thorough else 900
+    for _ in range(n_rand):
+        n = rng.choice([3, 4, 5, 6, 7, 8, 9, 10, 10, 10])
+        pool = rng.choice([TYPES, TYPES, ['i64', 'i32', 'ptr', 'u32', 'u64'], ['f32', 'f64', 'i64'], ['i8', 'i16', 'u8', 'u16', 'i64', 'f64']])
+        sigs.append(tuple(rng.choice(pool) for _ in range(n)))
+    seen, out = set(), []
+    for s in sigs:
+        if s not in seen and len(s) <= 10:
+            seen.add(s)
+            out.append(s)
+    return out
+
+
+def frames(impl, ctx, thorough):
+    a = impl.arch
+    key = lambda r: '%s/%d' % (r.name, CLSTAG[CLS[type(r).__name__]])
+    cs = list(a._callee_save)
+    alias_keys = []
+    for c in cs:
+        alias_keys.append([key(x) for x in a.info.alias.get(c, [c])])
+    others = ['rax/64', 'rcx/64', 'r10/64', 'eax/32', 'xmm3/164', 'al/8']
+    sizes = [0, 1, 7, 8, 15, 16, 17, 24, 31, 32, 40, 100, 4096] + ([ctx.rng.randrange(1, 5000) for _ in range(12)] if thorough else [])
+    out = []
+    for mask in range(1 << len(cs)):
+        for variant in range(3 if thorough else 2):
+            used = []
+            for i in range(len(cs)):
+                if mask >> i & 1:
+                    ak = alias_keys[i]
+                    used.append(ak[0] if variant == 0 else ak[ctx.rng.randrange(len(ak))])
+            used += ctx.rng.sample(others, ctx.rng.randrange(0, 3))
+            for sz in sizes:
+                out.append((sz, tuple(used)))
+    seen, res = set(), []
+    for f in out:
+        if f not in seen:
+            seen.add(f)
+            res.append(f)
+    return res
+
+
+# ---------------------------------------------------------------- rendering for the model
+def coq_sig(sig):
+    return '[%s]' % '; '.join(COQTY[t] for t in sig)
+
+
+def coq_used(impl, used):
+    return '[%s]' % '; '.join(coq_reg(impl, impl.reg_by_name(u)) for u in used)
+
+
+def val_ops(o):
+    """implementation outcome -> value comparable with toval of the model"""
+    if not isinstance(o, OkV):
+        return o
+    return OkV([_op(x) for x in o.v])
+
+
+def _op(x):
+    return tuple(x)
+
+
+# ---------------------------------------------------------------- witnesses of the known defects
+WITNESSES = [
+    ('determine_arg_locations', ['f32'] * 10),
+    ('gen_function_enter', ['f32'] * 10),
+    ('gen_call', ['f64'] * 9),
+    ('gen_call', ['i64'] * 6 + ['i8']),
+    ('gen_function_enter', ['i64'] * 6 + ['i8']),
+]
+
+
+def search(ctx, impl=None, deep=False):
+    impl = impl or Impl()
+    n = 0
+    sigs = signatures(ctx, deep)
+    if not deep:
+        sigs = sigs[:700]
+    for s in sigs:
+        n += check_signature(impl, ctx, s)
+    for (sz, used) in frames(impl, ctx, deep):
+        n += check_frame(impl, ctx, sz, list(used))
+    n += check_tables(impl, ctx)
+    for t in TYPES:      # return value register
+        n += 1
+        got = outcome(lambda: phys_of(impl.regt(impl.arch.determine_rv_location(impl.ty[t]))))
+        want = ('x', 0) if t in ('f32', 'f64') else ('g', 0)
+        if not (isinstance(got, OkV) and got.v == want):
+            ctx.violation({'fn': 'determine_rv_location', 'args': [t], 'expected': list(want),
+                           'actual': list(got.v) if isinstance(got, OkV) else 'exception'})
+    ctx.cov['stages']['oracle_search'] = {'signatures': len(sigs), 'evaluations': n}
+    ctx.cov['evaluations'] += n
+    if deep:
+        gcc_search(ctx, impl)
+
+
+def gcc_search(ctx, impl):
+    """thorough only, never required: gcc-compiled caller, ppci-compiled callee, run natively"""
+    import shutil
+    import io
+    if not shutil.which('gcc'):
+        ctx.cov['stages']['gcc_search'] = 'gcc not available'
+        return
+    try:
+        from ppci import api
+        from ppci.format.elf import write_elf
+        work = os.path.join(ctx.work, 'gcc')
+        os.makedirs(work, exist_ok=True)
+        cty = {'i8': 'char', 'i16': 'short', 'i32': 'int', 'i64': 'long', 'f32': 'float', 'f64': 'double'}
+        done = 0
+        for k in range(12):
+            n = ctx.rng.randrange(7, 13)
+            sig = [ctx.rng.choice(['i32', 'i64', 'f64', 'f32', 'i64', 'f64']) for _ in range(n)]
+            params = ', '.join('%s a%d' % (cty[t], i) for i, t in enumerate(sig))
+            expr = ' + '.join('a%d * %d.0' % (i, i + 1) for i in range(n))
+            src = 'double callee(%s) { return %s; }\n' % (params, expr)
+            vals = [ctx.rng.randrange(1, 50) for _ in range(n)]
+            want = float(sum(v * (i + 1) for i, v in enumerate(vals)))
+            try:
+                obj = api.cc(io.StringIO(src), 'x86_64')
+                with open(os.path.join(work, 'callee.o'), 'wb') as f:
+                    write_elf(obj, f, type='relocatable')
+            except Exception as ex:     # noqa: BLE001  (front-end limits are not C40's business)
+                continue
+            with open(os.path.join(work, 'main.c'), 'w') as f:
+                f.write('#include <stdio.h>\ndouble callee(%s);\nint main(){ printf("%%.1f\\n", callee(%s)); return 0; }\n'
+                        % (params, ', '.join(str(v) for v in vals)))
+            p = subprocess.run('gcc -no-pie main.c callee.o -o t.exe 2>/dev/null && ./t.exe', shell=True, cwd=work,
+                               stdout=subprocess.PIPE, stderr=subprocess.DEVNULL, text=True, timeout=60)
+            done += 1
+            got = p.stdout.strip()
+            if p.returncode != 0 or got != '%.1f' % want:
+                ctx.violation({'fn': 'native:gcc-caller/ppci-callee', 'args': sig, 'values': vals, 'expected': '%.1f' % want,
+                               'actual': got, 'key': 'native:' + ('f32-stack' if 'f32' in [t for t, w in zip(sig, sysv_places(sig)) if w[0] == 'm'] else 'other'),
+                               'source': src})
+        ctx.cov['stages']['gcc_search'] = {'programs_run': done}
+    except Exception as ex:   # noqa: BLE001
+        ctx.cov['stages']['gcc_search'] = 'skipped: %r' % (ex,)
+
+
+def run(ctx):
+    impl, tabs = regen(ctx)
+    ok, _ = ctx.build(['Proofs/C40_x86abi.vo'])
+    if ok:
+        ctx.check_props('Props/C40.v')
+    thorough = not ctx.quick()
+    # ---- correspondence: hand model vs implementation
+    if ctx.build(['Model/X86Abi.vo', 'Lib/Val.vo'])[0]:
+        cases, recs = [], []
+        sigs = signatures(ctx, thorough)
+        nontriv = 0
+        for s in sigs:
+            cs = coq_sig(s)
+            locs = outcome(impl.arg_locations, list(s))
+            cases.append(('determine_arg_locations %s' % cs, locs.v if isinstance(locs, OkV) else locs))
+            recs.append(('determine_arg_locations', s))
+            rvt = ctx.rng.choice([None] + TYPES)
+            call = outcome(impl.gen_call, list(s), rvt)
+            cases.append(('gen_call %s %s' % (cs, '(Some %s)' % COQTY[rvt] if rvt else 'None'), val_ops(call)))
+            recs.append(('gen_call', s))
+            ent = outcome(impl.gen_function_enter, list(s))
+            cases.append(('gen_function_enter %s' % cs, val_ops(ent)))
+            recs.append(('gen_function_enter', s))
+            if any(w[0] == 'm' for w in sysv_places(s)):
+                nontriv += 1
+        for t in TYPES:
+            cases.append(('determine_rv_location %s' % COQTY[t], impl.regt(impl.arch.determine_rv_location(impl.ty[t]))))
+            recs.append(('determine_rv_location', (t,)))
+        frs = frames(impl, ctx, thorough)
+        for (sz, used) in frs:
+            cu = coq_used(impl, used)
+            cases.append(('gen_prologue %d %s' % (sz, cu), [tuple(x) for x in impl.prologue(sz, list(used))]))
+            recs.append(('gen_prologue', (sz, used)))
+            cases.append(('gen_epilogue %d %s' % (sz, cu), [tuple(x) for x in impl.epilogue(sz, list(used))]))
+            recs.append(('gen_epilogue', (sz, used)))
+            if sz > 0 or any(u.split('/')[0] in ('rbx', 'ebx', 'bx', 'bl', 'bh', 'r14', 'r14d', 'r15', 'r15d') for u in used):
+                nontriv += 1
+        ctx.cov['distinct_nontrivial'] += nontriv
+        ctx.cov['stages']['correspondence'] = {'signatures': len(sigs), 'frames': len(frs), 'cases': len(cases)}
+        for r in recs[:: max(1, len(recs) // 8)]:
+            ctx.note_sample({'fn': r[0], 'input': repr(r[1])[:120]})
+        bad = ctx.run_cases('x86abi', ['Model.X86AbiTypes', 'Gen.Tab_x86abi', 'Model.X86Abi'], cases)
+        if bad:
+            for i in bad[:5]:
+                ctx.log('model/implementation disagree on', recs[i][0], recs[i][1])
+            ctx.failed_stages.append(('correspondence', 'Model.X86Abi disagrees with ppci/arch/x86_64/arch.py on %d cases, first: %s %r'
+                                      % (len(bad), recs[bad[0]][0], recs[bad[0]][1])))
+    # ---- known-defect witnesses: re-executed on the implementation on every run
+    for fn, sig in WITNESSES:
+        if fn == 'determine_arg_locations':
+            if impl_places(impl, sig) != sysv_places(sig):
+                check_signature(impl, ctx, tuple(sig))
+    # ---- search against the independent oracle (cheap always; deep when something failed / thorough)
+    search(ctx, impl, deep=thorough or bool(ctx.failed_stages))
+    ctx.cov['exhaustive'] = False
+
+
+MANIFEST = {
+    'text': 'partial (level other): Coq theorems over a hand model of the x86-64 calling-convention code (determine_arg_locations, '
+            'determine_rv_location, gen_call, gen_function_enter, gen_prologue, gen_epilogue, get_callee_saved) and over register '
+            'tables exported from the current source: for every scalar signature the argument and return locations equal the psABI '
+            'assignment (except stack-passed f32, a reported defect: 4-byte slots); whenever gen_call succeeds the callee reads each '
+            'stack argument from the slot the caller pushed; rsp is 16-byte aligned at the call and after the prologue; for every '
+            'frame size and used-register set prologue+body+epilogue return with rsp, rbp and all saved registers restored on an '
+            'abstract stack machine; every allocatable register the ABI preserves is covered by callee_save, every other one by the '
+            'call clobber list. NOT covered: semantics/encoding of the emitted instructions, struct and variadic arguments, wincc, '
+            'stack-passed float/double and 8/16-bit arguments on the caller side (NotImplementedError, reported), native execution.',
+    'note': 'trusted: Coq kernel; hand model tied to the code only by per-run differential correspondence (~1500 signatures x 3 '
+            'functions, ~200 frames x 2) and an AST/introspection table export; psABI/SDM reading in Spec/SysVSpec.v; the '
+            'instruction-to-abstract-operation mapping in tools/props/c40.py. No axioms.',
+    'technique': 'Coq proof over hand model + exported tables, differential correspondence, independent psABI oracle search',
+}
